@@ -1,10 +1,615 @@
 package dkgsim
 
 import (
+	"bytes"
+	"fmt"
+	"math/big"
+	"os"
+	"sort"
+
+	"go.dedis.ch/kyber/v4"
+	"go.dedis.ch/kyber/v4/share"
+	rdkg "go.dedis.ch/kyber/v4/share/dkg/rabin"
+	rvss "go.dedis.ch/kyber/v4/share/vss/rabin"
+	"go.dedis.ch/kyber/v4/sign/schnorr"
+
 	"verif/sim/core"
+	"verif/sim/kit"
 )
 
+// Rabin DKG through a stub phase driver (kyber has none): deals (p2p) ->
+// responses -> justifications -> timeout -> secret commits -> complaint
+// commits -> reconstruct commits. Inside a phase the per-recipient order and
+// multiplicity are free; everything sent in a phase is delivered before the
+// next one starts.
+
+type rparty struct {
+	id         int
+	priv       kyber.Scalar
+	pub        kyber.Point
+	gen        *rdkg.DistKeyGenerator
+	faulty     string // "", "crash", "byz"
+	crashPhase int
+	beh        map[string]bool
+	key        *rdkg.DistKeyShare
+	err        error
+	finished   bool
+}
+
+func (p *rparty) honest() bool     { return p.faulty == "" }
+func (p *rparty) dead(ph int) bool { return p.faulty == "crash" && ph >= p.crashPhase }
+
+type rmsg struct {
+	to   int
+	from int
+	m    any
+	copy int
+}
+
+var rabinMenu = []string{"deal-share-off-poly", "deal-undecryptable", "deal-misdirected", "deal-silent-to-one", "deal-none",
+	"just-missing", "just-wrong-share", "resp-false-complaint", "commits-inconsistent", "commits-missing", "complaint-commits-forged", "reconstruct-missing"}
+
+func rviol(oracle, class, format string, a ...any) *core.Violation {
+	return &core.Violation{Property: "C11", Engine: "dkgsim", Oracle: oracle, Class: "C11/" + class + "/rabin", Detail: fmt.Sprintf(format, a...)}
+}
+
+func copyVssDeal(d *rvss.Deal) *rvss.Deal {
+	if d == nil {
+		return nil
+	}
+	b, err := d.Marshal()
+	if err != nil {
+		panic("harness: vss deal marshal: " + err.Error())
+	}
+	c := &rvss.Deal{}
+	if err := c.Unmarshal(b, kit.Ed()); err != nil {
+		panic("harness: vss deal unmarshal: " + err.Error())
+	}
+	return c
+}
+
+func copyRabinMsg(m any) any {
+	g := kit.Ed()
+	switch x := m.(type) {
+	case *rdkg.Deal:
+		return &rdkg.Deal{Index: x.Index, Deal: &rvss.EncryptedDeal{DHKey: kit.CopyPoint(g, x.Deal.DHKey), Signature: kit.CopyBytes(x.Deal.Signature), Cipher: kit.CopyBytes(x.Deal.Cipher)}}
+	case *rdkg.Response:
+		r := x.Response
+		return &rdkg.Response{Index: x.Index, Response: &rvss.Response{SessionID: kit.CopyBytes(r.SessionID), Index: r.Index, Approved: r.Approved, Signature: kit.CopyBytes(r.Signature)}}
+	case *rdkg.Justification:
+		j := x.Justification
+		return &rdkg.Justification{Index: x.Index, Justification: &rvss.Justification{SessionID: kit.CopyBytes(j.SessionID), Index: j.Index, Deal: copyVssDeal(j.Deal), Signature: kit.CopyBytes(j.Signature)}}
+	case *rdkg.SecretCommits:
+		return &rdkg.SecretCommits{Index: x.Index, Commitments: kit.CopyPoints(g, x.Commitments), SessionID: kit.CopyBytes(x.SessionID), Signature: kit.CopyBytes(x.Signature)}
+	case *rdkg.ComplaintCommits:
+		return &rdkg.ComplaintCommits{Index: x.Index, DealerIndex: x.DealerIndex, Deal: copyVssDeal(x.Deal), Signature: kit.CopyBytes(x.Signature)}
+	case *rdkg.ReconstructCommits:
+		return &rdkg.ReconstructCommits{SessionID: kit.CopyBytes(x.SessionID), Index: x.Index, DealerIndex: x.DealerIndex,
+			Share: &share.PriShare{I: x.Share.I, V: kit.CopyScalar(g, x.Share.V)}, Signature: kit.CopyBytes(x.Signature)}
+	}
+	panic("harness: unknown rabin message")
+}
+
+func rkind(m any) string {
+	switch x := m.(type) {
+	case *rdkg.Deal:
+		return fmt.Sprintf("deal[from %d]", x.Index)
+	case *rdkg.Response:
+		return fmt.Sprintf("resp[dealer %d by %d ok=%v]", x.Index, x.Response.Index, x.Response.Approved)
+	case *rdkg.Justification:
+		return fmt.Sprintf("just[dealer %d for %d]", x.Index, x.Justification.Index)
+	case *rdkg.SecretCommits:
+		return fmt.Sprintf("commits[%d]", x.Index)
+	case *rdkg.ComplaintCommits:
+		return fmt.Sprintf("ccommits[by %d against %d]", x.Index, x.DealerIndex)
+	case *rdkg.ReconstructCommits:
+		return fmt.Sprintf("rcommits[by %d for %d]", x.Index, x.DealerIndex)
+	}
+	return "?"
+}
+
 func runRabin(t *core.Tape, tier string, info *core.RunInfo) *core.Violation {
-	info.Config["variant"] = "rabin (not built yet)"
+	g := kit.Ed()
+	maxN := 6
+	if tier == "thorough" {
+		maxN = 7
+	}
+	n := t.Range("cfg", 3, maxN)
+	th := n/2 + 1 + t.Intn("cfg", n-(n/2+1)+1)
+	honestClass := t.Bool("cfg.class", 120)
+	dupPm := 0
+	if !honestClass && t.Bool("cfg", 400) {
+		dupPm = 50 + t.Intn("cfg", 250)
+	}
+	// Known findings C11-rabin-*: most runs keep their triggers out (see pedersen gate)
+	kfGate := t.Bool("cfg.kf", 150) || os.Getenv("VERIF_KF_ALWAYS") != ""
+	privs, pubs := kit.KeyPairs(g, t, "keys", n)
+	ps := make([]*rparty, n)
+	for i := range ps {
+		ps[i] = &rparty{id: i, priv: privs[i], pub: pubs[i]}
+		gen, err := rdkg.NewDistKeyGenerator(kit.Ed(), privs[i], kit.CopyPoints(g, pubs), uint32(th))
+		if err != nil {
+			return rviol("setup", "setup/new", "NewDistKeyGenerator: %v", err)
+		}
+		ps[i].gen = gen
+	}
+	if !honestClass {
+		budget := n - th
+		for _, k := range t.Perm("cfg.faulty", n) {
+			if budget == 0 || !t.Bool("cfg.faulty", 500) {
+				continue
+			}
+			budget--
+			p := ps[k]
+			if t.Bool("cfg.faulty", 300) {
+				p.faulty, p.crashPhase = "crash", t.Intn("cfg.faulty", 6)
+			} else {
+				p.faulty, p.beh = "byz", map[string]bool{}
+				for b := 0; b < 1+t.Intn("cfg.faulty", 2); b++ {
+					k := rabinMenu[t.Intn("cfg.faulty", len(rabinMenu))]
+					if !kfGate && (k == "deal-undecryptable" || k == "deal-misdirected" || k == "deal-silent-to-one" || k == "deal-share-off-poly" || k == "just-missing" || k == "just-wrong-share") {
+						continue
+					}
+					p.beh[k] = true
+				}
+			}
+		}
+	}
+	var fl []string
+	for _, p := range ps {
+		if p.faulty == "crash" {
+			fl = append(fl, fmt.Sprintf("%d:crash@%d", p.id, p.crashPhase))
+		} else if p.faulty == "byz" {
+			fl = append(fl, fmt.Sprintf("%d:byz%v", p.id, core.SortedKeys(p.beh)))
+		}
+	}
+	info.Config["variant"], info.Config["n"], info.Config["t"], info.Config["faulty"], info.Config["dup_pm"] = "rabin", n, th, fl, dupPm
+
+	// expectations
+	badDealTo := map[int]map[int]string{} // dealer -> honest recipient -> what was wrong
+	noJustify := map[int]bool{}
+	markBad := func(d, r int, why string) {
+		if badDealTo[d] == nil {
+			badDealTo[d] = map[int]string{}
+		}
+		badDealTo[d][r] = why
+	}
+	sentCommits := map[int][]kyber.Point{} // what each dealer broadcast as secret commits (last authentic)
+
+	var pool []rmsg
+	send := func(ph int, from int, to int, m any) {
+		copies := 1
+		if dupPm > 0 && t.Bool("net.dup", dupPm) {
+			copies = 2 + t.Intn("net.dup", 2)
+			info.Fault("duplicate")
+		}
+		for c := 0; c < copies; c++ {
+			pool = append(pool, rmsg{to: to, from: from, m: copyRabinMsg(m), copy: c})
+		}
+	}
+	bcast := func(ph, from int, m any) {
+		for to := 0; to < n; to++ {
+			if to != from {
+				send(ph, from, to, m)
+			}
+		}
+	}
+	var next []rmsg // messages produced while a phase is delivered go to the next phase
+	sendNext := func(from, to int, m any) {
+		copies := 1
+		if dupPm > 0 && t.Bool("net.dup", dupPm) {
+			copies = 2
+			info.Fault("duplicate")
+		}
+		for c := 0; c < copies; c++ {
+			next = append(next, rmsg{to: to, from: from, m: copyRabinMsg(m), copy: c})
+		}
+	}
+	bcastNext := func(from int, m any) {
+		for to := 0; to < n; to++ {
+			if to != from {
+				sendNext(from, to, m)
+			}
+		}
+	}
+	_ = bcast
+	_ = send
+
+	// ---- phase 0: deals ----
+	for _, p := range ps {
+		if p.dead(0) {
+			if p.crashPhase == 0 {
+				info.Fault("crash-stop")
+			}
+			continue
+		}
+		var deals map[int]*rdkg.Deal
+		var err error
+		if pn := core.Guard(func() { deals, err = p.gen.Deals() }); pn != nil {
+			return rviol("totality", "panic/deals", "party %d Deals panicked: %v", p.id, pn)
+		}
+		if err != nil {
+			return rviol("liveness", "deals/error", "party %d Deals: %v", p.id, err)
+		}
+		if p.faulty == "byz" && p.beh["deal-none"] {
+			info.ByzFired("deal-none")
+			for j := 0; j < n; j++ {
+				if j != p.id && ps[j].honest() {
+					markBad(p.id, j, "no deal")
+				}
+			}
+			noJustify[p.id] = true
+			continue
+		}
+		for j := 0; j < n; j++ {
+			d, ok := deals[j]
+			if !ok {
+				continue
+			}
+			if p.faulty == "byz" && t.Bool("byz.pick", 500) {
+				vd := p.gen.VerifDealer()
+				switch {
+				case p.beh["deal-share-off-poly"]:
+					plain, _ := vd.PlaintextDeal(j)
+					bad := copyVssDeal(plain)
+					bad.SecShare.V = kit.ScalarFromTape(g, t, "byz.val")
+					if e, err := vd.VerifEncryptDeal(j, bad, nil, nil); err == nil {
+						d = &rdkg.Deal{Index: uint32(p.id), Deal: e}
+						markBad(p.id, j, "share off the polynomial")
+						info.ByzFired("deal-share-off-poly")
+					}
+				case p.beh["deal-undecryptable"]:
+					d = copyRabinMsg(d).(*rdkg.Deal)
+					k := t.Intn("byz.pick", len(d.Deal.Cipher)*8)
+					d.Deal.Cipher[k/8] ^= 1 << (k % 8)
+					markBad(p.id, j, "undecryptable deal")
+					info.ByzFired("deal-undecryptable")
+				case p.beh["deal-misdirected"]:
+					o := (j + 1 + t.Intn("byz.pick", n-1)) % n
+					if od, ok := deals[o]; ok {
+						d = od
+						markBad(p.id, j, "deal of another recipient")
+						info.ByzFired("deal-misdirected")
+					}
+				case p.beh["deal-silent-to-one"]:
+					markBad(p.id, j, "no deal")
+					info.ByzFired("deal-silent-to-one")
+					continue
+				}
+			}
+			sendNext(p.id, j, d)
+		}
+	}
+
+	phaseNames := []string{"deals", "responses", "justifications", "secret-commits", "complaint-commits", "reconstruct-commits"}
+	for ph := 1; ph <= 6; ph++ {
+		pool, next = next, nil
+		info.Logf("--- deliver %s ---", phaseNames[ph-1])
+		for _, p := range ps {
+			if p.faulty == "crash" && p.crashPhase == ph {
+				info.Fault("crash-stop")
+				info.Logf("party %d crash-stops", p.id)
+			}
+		}
+		for len(pool) > 0 {
+			k := t.Intn("sched", len(pool))
+			if k != 0 {
+				info.NonTrivial = true
+			}
+			ms := pool[k]
+			pool = append(pool[:k], pool[k+1:]...)
+			p := ps[ms.to]
+			if p.dead(ph) {
+				continue
+			}
+			info.Events++
+			info.SigAdd("%d<%d:%s:%d", ms.to, ms.from, rkind(ms.m), ms.copy)
+			switch m := ms.m.(type) {
+			case *rdkg.Deal:
+				var r *rdkg.Response
+				var err error
+				if pn := core.Guard(func() { r, err = p.gen.ProcessDeal(m) }); pn != nil {
+					return rviol("totality", "panic/processdeal", "party %d ProcessDeal panicked: %v | %s", p.id, pn, core.LastStack())
+				}
+				info.Logf("%s -> %d: resp=%v err=%v", rkind(m), p.id, r != nil, err)
+				if r == nil {
+					continue
+				}
+				if p.faulty == "byz" && p.beh["resp-false-complaint"] && ps[m.Index].honest() && r.Response.Approved {
+					r = copyRabinMsg(r).(*rdkg.Response)
+					r.Response.Approved = false
+					r.Response.Signature, _ = schnorr.Sign(g, p.priv, r.Response.Hash(g))
+					info.ByzFired("resp-false-complaint")
+				}
+				bcastNext(p.id, r)
+			case *rdkg.Response:
+				var j *rdkg.Justification
+				var err error
+				if pn := core.Guard(func() { j, err = p.gen.ProcessResponse(m) }); pn != nil {
+					return rviol("totality", "panic/processresponse", "party %d ProcessResponse(%s) panicked: %v | %s", p.id, rkind(m), pn, core.LastStack())
+				}
+				info.Logf("%s -> %d: just=%v err=%v", rkind(m), p.id, j != nil, err)
+				if j == nil {
+					continue
+				}
+				if p.faulty == "byz" {
+					if p.beh["just-missing"] {
+						noJustify[p.id] = true
+						info.ByzFired("just-missing")
+						continue
+					}
+					if p.beh["just-wrong-share"] {
+						j = copyRabinMsg(j).(*rdkg.Justification)
+						j.Justification.Deal.SecShare.V = kit.ScalarFromTape(g, t, "byz.val")
+						j.Justification.Signature, _ = schnorr.Sign(g, p.priv, j.Justification.Hash(g))
+						noJustify[p.id] = true
+						info.ByzFired("just-wrong-share")
+					}
+				}
+				// justifications travel in the same phase as late responses would: deliver in the next phase
+				bcastNext(p.id, j)
+			case *rdkg.Justification:
+				var err error
+				if pn := core.Guard(func() { err = p.gen.ProcessJustification(m) }); pn != nil {
+					return rviol("totality", "panic/processjustification", "party %d ProcessJustification panicked: %v | %s", p.id, pn, core.LastStack())
+				}
+				info.Logf("%s -> %d: err=%v", rkind(m), p.id, err)
+			case *rdkg.SecretCommits:
+				var cc *rdkg.ComplaintCommits
+				var err error
+				if pn := core.Guard(func() { cc, err = p.gen.ProcessSecretCommits(m) }); pn != nil {
+					return rviol("totality", "panic/processsecretcommits", "party %d ProcessSecretCommits panicked: %v | %s", p.id, pn, core.LastStack())
+				}
+				info.Logf("%s -> %d: complaint=%v err=%v", rkind(m), p.id, cc != nil, err)
+				if cc != nil {
+					info.Probe("complaint-commits-issued")
+					bcastNext(p.id, cc)
+				}
+			case *rdkg.ComplaintCommits:
+				var rc *rdkg.ReconstructCommits
+				var err error
+				if pn := core.Guard(func() { rc, err = p.gen.ProcessComplaintCommits(m) }); pn != nil {
+					return rviol("totality", "panic/processcomplaintcommits", "party %d ProcessComplaintCommits panicked: %v | %s", p.id, pn, core.LastStack())
+				}
+				info.Logf("%s -> %d: reconstruct=%v err=%v", rkind(m), p.id, rc != nil, err)
+				if rc != nil {
+					if p.faulty == "byz" && p.beh["reconstruct-missing"] {
+						info.ByzFired("reconstruct-missing")
+						continue
+					}
+					bcastNext(p.id, rc)
+				}
+			case *rdkg.ReconstructCommits:
+				var err error
+				if pn := core.Guard(func() { err = p.gen.ProcessReconstructCommits(m) }); pn != nil {
+					return rviol("totality", "panic/processreconstructcommits", "party %d ProcessReconstructCommits panicked: %v | %s", p.id, pn, core.LastStack())
+				}
+				info.Logf("%s -> %d: err=%v", rkind(m), p.id, err)
+				if err == nil {
+					info.Probe("reconstruct-commit-accepted")
+				}
+			}
+		}
+		// phase boundaries
+		switch ph {
+		case 2:
+			// responses delivered; justifications are in `next`. Nothing else.
+		case 3:
+			// justifications delivered: timeout everywhere, then secret commits
+			for _, p := range ps {
+				if p.dead(4) {
+					continue
+				}
+				p.gen.SetTimeout()
+				info.Logf("party %d: timeout; QUAL=%v certified=%v", p.id, sortedQual(p.gen), p.gen.Certified())
+			}
+			for _, p := range ps {
+				if p.dead(4) {
+					continue
+				}
+				var sc *rdkg.SecretCommits
+				var err error
+				if pn := core.Guard(func() { sc, err = p.gen.SecretCommits() }); pn != nil {
+					return rviol("totality", "panic/secretcommits", "party %d SecretCommits panicked: %v", p.id, pn)
+				}
+				if err != nil && p.faulty == "byz" {
+					// a Byzantine dealer publishes its commitments whether or not its own object
+					// believes its deal certified (e.g. because a verifier it cheated never answered)
+					vd := p.gen.VerifDealer()
+					sc = &rdkg.SecretCommits{Index: uint32(p.id), Commitments: kit.CopyPoints(g, vd.VerifSecretCommits()), SessionID: kit.CopyBytes(vd.SessionID())}
+					sc.Signature, _ = schnorr.Sign(g, p.priv, sc.Hash(g))
+					err = nil
+					info.Probe("byzantine-dealer-forces-secret-commits")
+				}
+				if err != nil {
+					info.Logf("party %d SecretCommits: %v", p.id, err)
+					if p.honest() {
+						// DistKeyGenerator.SetTimeout times out the verifiers but not the node's own
+						// dealer: with any verifier absent an honest dealer never releases its
+						// commitments and nobody can finish (observation; C11 promises completion
+						// only when everyone is honest)
+						info.Probe("honest-own-deal-not-certified")
+					}
+					continue
+				}
+				if p.faulty == "byz" {
+					if p.beh["commits-missing"] {
+						info.ByzFired("commits-missing")
+						continue
+					}
+					if p.beh["commits-inconsistent"] {
+						sc = copyRabinMsg(sc).(*rdkg.SecretCommits)
+						k := t.Intn("byz.pick", len(sc.Commitments))
+						sc.Commitments[k] = g.Point().Mul(kit.ScalarFromTape(g, t, "byz.val"), nil)
+						sc.Signature, _ = schnorr.Sign(g, p.priv, sc.Hash(g))
+						info.ByzFired("commits-inconsistent")
+					}
+				}
+				sentCommits[p.id] = kit.CopyPoints(g, sc.Commitments)
+				bcastNext(p.id, sc)
+			}
+		case 4:
+			// forged complaint commits by Byzantine parties
+			for _, p := range ps {
+				if p.faulty == "byz" && p.beh["complaint-commits-forged"] {
+					for _, q := range ps {
+						if q.honest() {
+							vd := q.gen.VerifDealer()
+							plain, err := vd.PlaintextDeal(p.id)
+							if err != nil {
+								continue
+							}
+							fd := copyVssDeal(plain)
+							fd.SecShare.V = kit.ScalarFromTape(g, t, "byz.val")
+							cc := &rdkg.ComplaintCommits{Index: uint32(p.id), DealerIndex: uint32(q.id), Deal: fd}
+							cc.Signature, _ = schnorr.Sign(g, p.priv, cc.Hash(g))
+							bcastNext(p.id, cc)
+							info.ByzFired("complaint-commits-forged")
+							break
+						}
+					}
+				}
+			}
+		}
+	}
+
+	// ---- results ----
+	var done []*rparty
+	for _, p := range ps {
+		if !p.honest() {
+			continue
+		}
+		fin := false
+		if pn := core.Guard(func() { fin = p.gen.Finished() }); pn != nil {
+			return rviol("totality", "panic/finished", "party %d Finished panicked: %v", p.id, pn)
+		}
+		if !fin {
+			info.Probe("honest-not-finished")
+			info.Logf("honest party %d not finished; QUAL=%v", p.id, sortedQual(p.gen))
+			if honestClass {
+				return rviol("liveness", "liveness/honest-run-incomplete", "all parties honest, but party %d is not finished", p.id)
+			}
+			continue
+		}
+		var k *rdkg.DistKeyShare
+		var err error
+		if pn := core.Guard(func() { k, err = p.gen.DistKeyShare() }); pn != nil {
+			return rviol("totality", "panic/distkeyshare", "party %d DistKeyShare panicked: %v | %s", p.id, pn, core.LastStack())
+		}
+		if err != nil {
+			info.Probe("honest-finished-but-no-share")
+			if honestClass {
+				return rviol("liveness", "liveness/honest-run-no-share", "all parties honest, but party %d: %v", p.id, err)
+			}
+			continue
+		}
+		p.key, p.finished = k, true
+		done = append(done, p)
+		info.Probe("honest-completed")
+	}
+	if len(done) == 0 {
+		return nil
+	}
+	ref := done[0]
+	rq := sortedQual(ref.gen)
+	rc := pointsBytes(ref.key.Commits)
+	for _, p := range done[1:] {
+		if q := sortedQual(p.gen); fmt.Sprint(q) != fmt.Sprint(rq) {
+			return rviol("agreement", "agreement/qual", "parties %d and %d disagree on QUAL: %v vs %v", ref.id, p.id, rq, q)
+		}
+		pc := pointsBytes(p.key.Commits)
+		if len(pc) != len(rc) {
+			return rviol("agreement", "agreement/commits-length", "parties %d and %d: polynomial lengths %d vs %d", ref.id, p.id, len(rc), len(pc))
+		}
+		for i := range pc {
+			if !bytes.Equal(pc[i], rc[i]) {
+				return rviol("agreement", "agreement/commits", "parties %d and %d disagree on coefficient %d of the commitment polynomial (QUAL %v)", ref.id, p.id, i, rq)
+			}
+		}
+	}
+	if len(rc) != th {
+		return rviol("shares", "shares/poly-length", "commitment polynomial has %d coefficients, t=%d", len(rc), th)
+	}
+	var idx []uint32
+	var ys []*big.Int
+	for _, p := range done {
+		sh := p.key.Share
+		if sh.I != uint32(p.id) {
+			return rviol("shares", "shares/index", "party %d holds share index %d", p.id, sh.I)
+		}
+		if !g.Point().Mul(sh.V, nil).Equal(kit.EvalCommits(g, ref.key.Commits, sh.I)) {
+			return rviol("shares", "shares/not-on-polynomial", "share of honest party %d does not lie on the common commitment polynomial (QUAL %v)", p.id, rq)
+		}
+		idx = append(idx, sh.I)
+		ys = append(ys, kit.ScalarBig(sh.V))
+	}
+	if len(done) >= th {
+		perm := t.Perm("oracle.subset", len(done))
+		si, sy := make([]uint32, th), make([]*big.Int, th)
+		for k := 0; k < th; k++ {
+			si[k], sy[k] = idx[perm[k]], ys[perm[k]]
+		}
+		if !g.Point().Mul(kit.BigScalar(g, kit.LagrangeAt0(si, sy)), nil).Equal(ref.key.Commits[0]) {
+			return rviol("shares", "shares/reconstruct", "t honest shares %v interpolate to a secret that does not match the public key", si)
+		}
+		info.Probe("reconstructed-from-t-shares")
+	}
+	inQ := map[uint32]bool{}
+	for _, q := range rq {
+		inQ[q] = true
+	}
+	for _, p := range ps {
+		if p.honest() && !inQ[uint32(p.id)] {
+			return rviol("membership", "membership/honest-dealer-excluded", "honest, live party %d is not in QUAL %v", p.id, rq)
+		}
+		if p.faulty == "byz" && inQ[uint32(p.id)] && noJustify[p.id] {
+			rs := make([]int, 0)
+			for r := range badDealTo[p.id] {
+				rs = append(rs, r)
+			}
+			sort.Ints(rs)
+			for _, r := range rs {
+				if ps[r].honest() {
+					return rviol("membership", "membership/bad-dealer-in-qual/"+sanitizeWhy(badDealTo[p.id][r]), "party %d is in QUAL %v although its deal to honest party %d was invalid (%s) and never validly justified", p.id, rq, r, badDealTo[p.id][r])
+				}
+			}
+		}
+		if p.faulty == "byz" && inQ[uint32(p.id)] && !noJustify[p.id] {
+			// deals that cannot even be complained about (undecryptable, misdirected, missing) can never be justified
+			rs := make([]int, 0)
+			for r := range badDealTo[p.id] {
+				rs = append(rs, r)
+			}
+			sort.Ints(rs)
+			for _, r := range rs {
+				if why := badDealTo[p.id][r]; ps[r].honest() && why != "share off the polynomial" {
+					return rviol("membership", "membership/bad-dealer-in-qual/"+sanitizeWhy(why), "party %d is in QUAL %v although honest party %d never obtained a valid deal from it (%s)", p.id, rq, r, why)
+				}
+			}
+		}
+	}
+	// composition: key = sum of the QUAL dealers' constant commitments as broadcast or reconstructed
+	sum := g.Point().Null()
+	okc := true
+	for _, q := range rq {
+		c, ok := sentCommits[int(q)]
+		if !ok || (ps[q].faulty == "byz" && ps[q].beh["commits-inconsistent"]) {
+			okc = false
+			break
+		}
+		sum = g.Point().Add(sum, c[0])
+	}
+	if okc {
+		if !sum.Equal(ref.key.Commits[0]) {
+			return rviol("composition", "composition/key-is-not-sum-of-qual", "public key is not the sum of the QUAL dealers' broadcast commitments (QUAL %v)", rq)
+		}
+		info.Probe("composition-checked")
+	}
 	return nil
+}
+
+func sortedQual(d *rdkg.DistKeyGenerator) []uint32 {
+	q := d.QUAL()
+	sort.Slice(q, func(i, j int) bool { return q[i] < q[j] })
+	return q
 }
